@@ -678,7 +678,48 @@ public:
     unsigned                burst_before_end;   // event producing PDUs in the connection event that ended the connection
     unsigned                closed_reason;
     std::string             seq;                // callbacks of the current connection
-    bool                    pending_instant_traffic = false;   // PDUs reached the link layer while a PDU with an instant waited (C21 territory)
+    bool                    pending_instant_traffic = false;
+
+    // actual changes of the connection that still have to be reported by ll_connection_changed (exactly once each)
+    struct owed_change { std::string kind; std::string burst; bool due; };
+    bool                        track_changes = false;      // the driver feeds every source of change (encryption on/off, connection update)
+    bool                        changes_unreliable = false; // order of processing not known for this connection: no verdicts about changes
+    std::deque< owed_change >   owed;
+    std::string                 last_change_kind = "none";
+
+    static std::string burst_class( unsigned n ) { return n == 0 ? "burst0" : n <= 3 ? "burst1-3" : n == 4 ? "burst4" : "burst5+"; }
+
+    void truth_change( const std::string& kind, unsigned burst, bool due )
+    {
+        if ( !track_changes || !conn_truth ) return;
+        owed.push_back( owed_change{ kind, burst_class( burst ), due } );
+        mon.cls( "change:" + kind );
+        mon.cls( "change_burst:" + burst_class( burst ) );
+        mon.nontrivial( verif::mix( verif::hstr( "change:" + kind ), burst ) );
+    }
+
+    void changes_now_due( const std::string& kind, unsigned burst )
+    {
+        for ( auto& o : owed )
+            if ( o.kind == kind && !o.due ) { o.due = true; o.burst = burst_class( burst ); mon.cls( "change_burst:" + o.burst ); mon.cls( "change_at_instant:" + o.burst ); }
+    }
+
+    // the link is quiet: everything that reached the link layer was processed
+    void changes_settled()
+    {
+        if ( !track_changes ) return;
+        mon.eval();
+
+        std::deque< owed_change > keep;
+        for ( const auto& o : owed )
+        {
+            if ( !o.due ) { keep.push_back( o ); continue; }
+            if ( !changes_unreliable )
+                bad( "C29:missing:changed:" + o.kind + ":" + o.burst, "the connection changed (" + o.kind + ") but ll_connection_changed was not called for it" );
+        }
+        owed.swap( keep );
+    }
+   // PDUs reached the link layer while a PDU with an instant waited (C21 territory)
 
     void truth_connect_ind()
     {
@@ -691,6 +732,9 @@ public:
         cause = "";
         burst_before_end = 0;
         pending_instant_traffic = false;
+        owed.clear();
+        changes_unreliable = false;
+        last_change_kind = "none";
     }
 
     void truth_first_event()
@@ -758,6 +802,22 @@ public:
         default:
             if ( st != st_established )
                 bad( std::string( "C29:order:" ) + kind_name( k ) + ":" + state_name(), std::string( kind_name( k ) ) + " callback outside of an established connection" );
+            else if ( k == changed && track_changes && !changes_unreliable )
+            {
+                // belongs to the oldest change that is due, else to the oldest one at all (connection update at its instant)
+                std::size_t hit = owed.size();
+                for ( std::size_t i = 0; i < owed.size() && hit == owed.size(); ++i ) if ( owed[ i ].due ) hit = i;
+                if ( hit == owed.size() && !owed.empty() ) hit = 0;
+
+                if ( hit == owed.size() )
+                    bad( "C29:duplicate:changed:" + last_change_kind, "ll_connection_changed was called although nothing changed since the last report (last change: " + last_change_kind + ")" );
+                else
+                {
+                    last_change_kind = owed[ hit ].kind;
+                    mon.cls( "changed_reported:" + owed[ hit ].kind );
+                    owed.erase( owed.begin() + static_cast< std::ptrdiff_t >( hit ) );
+                }
+            }
             break;
         }
     }
@@ -821,7 +881,8 @@ public:
                     bad( std::string( "C29:missing:attempt_timeout:" ) + state_name(), "the connection never saw a connection event; ll_connection_attempt_timeout expected" );
             }
 
-            // whatever happened, the next connection starts clean
+            // whatever happened, the next connection starts clean (changes under way when the connection ended are not demanded)
+            owed.clear();
             st = st_none;
             want_established = false;
         }
